@@ -423,6 +423,15 @@ func (b *c01Base) forgeries(r *mrand.Rand) []c01Forgery {
 		})
 	}
 	withPKI("ds-without-digitalsignature", mkPKI(func(o *issuer.PKIOpts) { o.DSKeyUsage = issuer.KUKeyCertSign }), nil)
+	// every other usage bit alone, and all of them together, in place of digitalSignature
+	for _, ku := range []struct {
+		name string
+		bits int
+	}{{"nonrepudiation", 0x40}, {"keyencipherment", 0x20}, {"dataencipherment", 0x10}, {"keyagreement", 0x08}, {"crlsign", 0x02}, {"all-but-digitalsignature", 0x7E}} {
+		ku := ku
+		withPKI("ds-keyusage-"+ku.name+"-without-digitalsignature", mkPKI(func(o *issuer.PKIOpts) { o.DSKeyUsage = ku.bits }), nil)
+	}
+	withPKI("anchor-keyusage-all-but-keycertsign", mkPKI(func(o *issuer.PKIOpts) { o.CSCAKeyUsage = 0xFA }), nil)
 	no := false
 	withPKI("anchor-without-ca-flag", mkPKI(func(o *issuer.PKIOpts) { o.CSCAIsCA = &no }), nil)
 	withPKI("anchor-without-keycertsign", mkPKI(func(o *issuer.PKIOpts) { o.CSCAKeyUsage = issuer.KUCRLSign }), nil)
